@@ -301,7 +301,7 @@ def gen_exclude_case(rng, n):
             "placement": placement, "fates": changes, "ref_target": ref_target, "fk_from_db_only": fk_from_db_only}
 
 
-SUB_FATES = ["same", "addcol", "addidx", "retype", "fkcol-same", "fkcol-addcol", "idxcol-same"]
+SUB_FATES = ["same", "addcol", "addidx", "retype", "fkcol-same", "fkcol-addcol", "idxcol-same", "fkidxcol-same", "main-col", "main-nomatch"]
 
 
 def gen_sub_case(rng, n):
@@ -309,14 +309,30 @@ def gen_sub_case(rng, n):
     sides and carries a foreign key / is the key of a (not excluded) index; nothing else differs (or a column is added)."""
     fate = SUB_FATES[n % len(SUB_FATES)]
     other = gen_plain(rng, "m_o", "mi")
-    if fate.startswith("fkcol") or fate.startswith("idxcol"):
+    source = "env" if (n // len(SUB_FATES) + n) % 2 else "flag"
+    if fate == "main-col":
+        # a table named like the schema: in schema scope `main.legacy` is the child `legacy` of TABLE `main`; the table
+        # `legacy` matches no pattern. The column is only in the database; nothing else differs.
+        t = table("main", [("a", "text", False), ("legacy", "text", False)])
+        w = table("main", [("a", "text", False)])
+        leg = table("legacy", [("a", "text", False)])
+        return {"n": n, "kind": "exclude-sub", "cur": [t, leg, other], "want": [w, copy.deepcopy(leg), copy.deepcopy(other)],
+                "patterns": [["main.legacy", "main.legac?"][(n // len(SUB_FATES)) % 2]],
+                "fate": fate, "source": source, "ptable": "main", "pcol": "legacy", "pidx": None}
+    if fate == "main-nomatch":
+        # no table is called `main`: `main.m_u` / `main.*` match nothing in schema scope, m_u stays inspected and managed
+        u = table("m_u", [("a", "text", False)], idx=[["ix_u_a", ["a"], False]])
+        return {"n": n, "kind": "exclude-sub", "cur": [u, other], "want": [copy.deepcopy(u), copy.deepcopy(other)],
+                "patterns": [["main.m_u", "main.*"][(n // len(SUB_FATES)) % 2]],
+                "fate": fate, "source": source, "ptable": None, "pcol": None, "pidx": None}
+    if fate.startswith("fkcol") or fate.startswith("idxcol") or fate.startswith("fkidxcol"):
         ref = table("m_r", [("a", "text", False)])
         t = table("m_s", [("a", "text", False), ("b", "integer", False), ("secret", "integer", False)], idx=[["ix_secret", ["a"], False]])
         nodemand = {"idx": [], "fks": []}
-        if fate.startswith("fkcol"):
+        if fate.startswith("fk"):
             t["fks"].append(["fk_sec", ["secret"], "m_r", ["id"]])
             nodemand["fks"].append((("secret",), "m_r", ("id",)))
-        else:
+        if "idxcol" in fate:
             t["idx"].append(["sx_col", ["secret"], False])
             nodemand["idx"].append("sx_col")
         w = copy.deepcopy(t)
@@ -325,7 +341,7 @@ def gen_sub_case(rng, n):
         pats = [["m_s.secret", "*.secret", "m_s.secret[type=column]", "m_s.s?cret"][(n // len(SUB_FATES)) % 4],
                 rng.choice(["m_s.ix_secret", "m_s.ix_*[type=index]", "*.ix_secret[type=index]"])]
         return {"n": n, "kind": "exclude-sub", "cur": [ref, t, other], "want": [copy.deepcopy(ref), w, copy.deepcopy(other)], "patterns": pats,
-                "fate": fate, "nodemand": nodemand, "secret_in_file": True, "source": "env" if n % 2 else "flag"}
+                "fate": fate, "nodemand": nodemand, "secret_in_file": True, "source": source}
     t = table("m_s", [("a", "text", False), ("b", "integer", False), ("secret", "text", False)], idx=[["ix_secret", ["a"], False]])
     w = table("m_s", [("a", "text", False), ("b", "integer", False)])
     if fate == "addcol":
@@ -337,7 +353,7 @@ def gen_sub_case(rng, n):
     pats = [rng.choice(["m_s.secret", "*.secret", "m_s.secret[type=column]", "m_s.s?cret"]),
             rng.choice(["m_s.ix_secret", "m_s.ix_*[type=index]", "*.ix_secret[type=index]"])]
     return {"n": n, "kind": "exclude-sub", "cur": [t, other], "want": [w, copy.deepcopy(other)], "patterns": pats, "fate": fate,
-            "source": "env" if n % 2 else "flag"}
+            "source": source}
 
 
 SKIP_KINDS = ["drop_table", "drop_column", "drop_index", "add_table", "add_column", "add_index", "modify_column",
